@@ -116,9 +116,35 @@ func (w *c03world) keyField(b []byte) string {
 	return "(KeyOk 99)" // a valid key nobody signs with
 }
 
+// the message of every event type of the protocol (appendix B of DESIGN.md): the harness' OWN table, so
+// that it does not depend on how events.go represents its own
+var c03messages = map[protocoltypes.EventType]proto.Message{
+	protocoltypes.EventType_EventTypeGroupMemberDeviceAdded:                 &protocoltypes.GroupMemberDeviceAdded{},
+	protocoltypes.EventType_EventTypeGroupDeviceChainKeyAdded:               &protocoltypes.GroupDeviceChainKeyAdded{},
+	protocoltypes.EventType_EventTypeAccountGroupJoined:                     &protocoltypes.AccountGroupJoined{},
+	protocoltypes.EventType_EventTypeAccountGroupLeft:                       &protocoltypes.AccountGroupLeft{},
+	protocoltypes.EventType_EventTypeAccountContactRequestDisabled:          &protocoltypes.AccountContactRequestDisabled{},
+	protocoltypes.EventType_EventTypeAccountContactRequestEnabled:           &protocoltypes.AccountContactRequestEnabled{},
+	protocoltypes.EventType_EventTypeAccountContactRequestReferenceReset:    &protocoltypes.AccountContactRequestReferenceReset{},
+	protocoltypes.EventType_EventTypeAccountContactRequestOutgoingEnqueued:  &protocoltypes.AccountContactRequestOutgoingEnqueued{},
+	protocoltypes.EventType_EventTypeAccountContactRequestOutgoingSent:      &protocoltypes.AccountContactRequestOutgoingSent{},
+	protocoltypes.EventType_EventTypeAccountContactRequestIncomingReceived:  &protocoltypes.AccountContactRequestIncomingReceived{},
+	protocoltypes.EventType_EventTypeAccountContactRequestIncomingDiscarded: &protocoltypes.AccountContactRequestIncomingDiscarded{},
+	protocoltypes.EventType_EventTypeAccountContactRequestIncomingAccepted:  &protocoltypes.AccountContactRequestIncomingAccepted{},
+	protocoltypes.EventType_EventTypeAccountContactBlocked:                  &protocoltypes.AccountContactBlocked{},
+	protocoltypes.EventType_EventTypeAccountContactUnblocked:                &protocoltypes.AccountContactUnblocked{},
+	protocoltypes.EventType_EventTypeContactAliasKeyAdded:                   &protocoltypes.ContactAliasKeyAdded{},
+	protocoltypes.EventType_EventTypeMultiMemberGroupAliasResolverAdded:     &protocoltypes.MultiMemberGroupAliasResolverAdded{},
+	protocoltypes.EventType_EventTypeMultiMemberGroupInitialMemberAnnounced: &protocoltypes.MultiMemberGroupInitialMemberAnnounced{},
+	protocoltypes.EventType_EventTypeMultiMemberGroupAdminRoleGranted:       &protocoltypes.MultiMemberGroupAdminRoleGranted{},
+	protocoltypes.EventType_EventTypeGroupMetadataPayloadSent:               &protocoltypes.GroupMetadataPayloadSent{},
+	protocoltypes.EventType_EventTypeGroupReplicating:                       &protocoltypes.GroupReplicating{},
+	protocoltypes.EventType_EventTypeAccountVerifiedCredentialRegistered:    &protocoltypes.AccountVerifiedCredentialRegistered{},
+}
+
 // fill sets every field of an event message generically; the device field gets [dev].
 func (w *c03world) fill(typ protocoltypes.EventType, dev *c03key, salt int) (proto.Message, [][]byte) {
-	m := proto.Clone(eventTypesMapper[typ].Message)
+	m := proto.Clone(c03messages[typ])
 	r := m.ProtoReflect()
 	var touched [][]byte
 	fs := r.Descriptor().Fields()
@@ -191,7 +217,7 @@ func (w *c03world) catalogue(typ protocoltypes.EventType, salt int) []*c03env {
 			e.sig = w.sign(signer, e.payload, e.payloadID)
 		}
 		// the key fields as the opener will decode them
-		dec := proto.Clone(eventTypesMapper[typ].Message)
+		dec := proto.Clone(c03messages[typ])
 		if err := proto.Unmarshal(e.payload, dec); err != nil {
 			e.wellform = false
 		} else {
@@ -339,7 +365,13 @@ func (w *c03world) catalogue(typ protocoltypes.EventType, salt int) []*c03env {
 		e.sig = c03sig{by: ^uint64(0), raw: s}
 	})
 	// unknown type numbers around the honest content
-	for _, t := range []int32{0, 3, 404, 9999} {
+	unknownTypes := []int32{0, 3, 404, 9999}
+	// ... and the number right below this very type when it is no type itself (a gap of the enumeration):
+	// the honest content of the type under a number that designates nothing
+	if _, known := protocoltypes.EventType_name[int32(typ)-1]; !known && int32(typ) > 0 {
+		unknownTypes = append(unknownTypes, int32(typ)-1)
+	}
+	for _, t := range unknownTypes {
 		t := t
 		e := build(fmt.Sprintf("unknown type number %d", t), w.d1, right, nil)
 		e.typ = t
@@ -414,7 +446,7 @@ func TestVerifC03(t *testing.T) {
 		rounds = 1
 	}
 	var types []protocoltypes.EventType
-	for ty := range eventTypesMapper {
+	for ty := range c03messages {
 		types = append(types, ty)
 	}
 	sort.Slice(types, func(i, j int) bool { return types[i] < types[j] })
